@@ -1321,6 +1321,9 @@ class Gen:
             one = r.choice([0, 1])
             s0 = {"c": "Vals", "p": {"s": "v", "i": one}, "ch": {}, "o": o}
             s1 = {"c": "Vals", "p": {"s": "v", "f": float(one), "flag": bool(one)} if r.random() < 0.5 else {"s": "v", "ti": [], "g": float(one)}, "ch": {}, "o": o}
+            if self.cfg["rtc"]:
+                # runs that (may) type-check at run time never hold a False (the pinned tree rejects it: C13)
+                s1["p"].pop("flag", None)
             z = self.out() + "i0"
             self.script = [
                 lambda ac: {"op": "construct", "spec": s0, "out": z},
